@@ -415,6 +415,9 @@ func mustPkt(t packet.Type, body []byte) []byte {
 	return b
 }
 
+// bigBody: payload of a `b<mid>` message
+var bigBody = []byte(strings.Repeat("y", 300000))
+
 // badMsgBody: a Data packet body that message.Decode rejects
 var badMsgBody = []byte{0x00}
 
@@ -442,6 +445,17 @@ func encPkt(w string) ([]byte, bool) {
 			// odd ids: still a request (the id is what the owner sees), longer route and payload
 			mb, err = msgEnc.Encode(&message.Message{Type: message.Request, ID: uint(n), Route: "chat.room.say", Data: []byte(strings.Repeat("y", int(n%37)))})
 		}
+		if err != nil {
+			panic(err)
+		}
+		return mustPkt(packet.Data, mb), true
+	case strings.HasPrefix(w, "b"):
+		// a decodable request with a body larger than the socket buffers (it cannot arrive in one piece)
+		n, err := strconv.ParseUint(w[1:], 10, 32)
+		if err != nil {
+			return nil, false
+		}
+		mb, err := msgEnc.Encode(&message.Message{Type: message.Request, ID: uint(n), Route: "chat.room.say", Data: bigBody})
 		if err != nil {
 			panic(err)
 		}
